@@ -592,8 +592,9 @@ def run(chk: Check):
     rule_kind_guard(chk)
     from .firstpass import rule_first_pass_raisers
     rule_first_pass_raisers(chk, ir)
-    from .x11 import rule_x11
+    from .x11 import rule_x11, rule_x12
     rule_x11(chk)
+    rule_x12(chk)
     rule_combinators(chk)
     rule_lookahead_cover(chk, ir)
     rule_column_unit(chk)
